@@ -154,8 +154,14 @@ def gen_docs(rng, n, big=False):
         nx = rng.choice([0, 3, 10, 40]) if not big else rng.choice([90, 99, 100, 101, 199, 201, 260])
         prev = None
         for k in range(nx):
-            kind = rng.randrange(10)
-            if kind >= 8:
+            kind = rng.randrange(11)
+            if kind == 10:
+                # signature dictionaries (12.8.1): /Contents is a hex string that is never encrypted; /Type is optional
+                v = {b"ByteRange": [0, 100, 300, 50], b"Contents": Str(bytes(rng.randrange(256) for _ in range(rng.choice([16, 40, 112])))),
+                     b"Filter": N("Adobe.PPKLite"), b"Name": Str(b"signer %d" % k)}
+                if rng.random() < 0.5:
+                    v[b"Type"] = N("Sig")
+            elif kind >= 8:
                 v = filtered_stream(rng, d, k)
             elif kind == 0:
                 if rng.random() < 0.5:
